@@ -158,69 +158,76 @@ func runC18(c *an.Ctx) {
 			}
 		})
 		c.Min("C18.c", "request literals in prepareRequests", nOrig, 1)
-		// amount strictly decreases and from advances by the same step
+		// one iteration emits a request of size S for the remaining amount A and moves on to
+		// (from', A'): S ≥ 1, S ≤ A, S ≤ per-peer size, A' = A − S, and from' = from + S (or A' = 0: the
+		// loop ends). Proven per branch when the new values are merged by an if/else, and with the
+		// min() axioms when the chunk size is min(A, per).
 		hdr := amountPhi.Block()
-		for i, e := range amountPhi.Edges {
-			pred := hdr.Preds[i]
-			if !pf.Dominates(hdr, pred) {
-				continue
-			}
-			// the back edge value may itself be a merge phi of the two branches
-			vals := []ssa.Value{e}
-			if ph, ok := e.(*ssa.Phi); ok {
-				vals = ph.Edges
-			}
-			for _, v := range vals {
-				d := pt.Affine(amountPhi).Sub(pt.Affine(v)) // decrease
-				okDec := false
-				switch {
-				case pt.Of(v) == "0": // last chunk: amount := 0 under amount ≠ 0
-					okDec = true
-				case d.String() == "p2" && perOK:
-					okDec = true
+		var amtStore *ssa.Store
+		an.Instrs(s.prep, func(in ssa.Instruction) {
+			if st, ok := in.(*ssa.Store); ok {
+				if fa, ok := st.Addr.(*ssa.FieldAddr); ok && fieldName(fa) == "Amount" {
+					amtStore = st
 				}
-				c.Check(okDec, "C18.c", "amount-decreases", "every iteration strictly decreases the remaining amount (by the non-zero per-peer size, or to zero)", s.prep, amountPhi, "new amount "+pt.Of(v), nil)
+			}
+		})
+		var nextA, nextF ssa.Value
+		for i, e := range amountPhi.Edges {
+			if pf.Dominates(hdr, hdr.Preds[i]) {
+				nextA = e
 			}
 		}
 		for i, e := range fromPhi.Edges {
-			pred := fromPhi.Block().Preds[i]
-			if !pf.Dominates(fromPhi.Block(), pred) {
-				continue
-			}
-			vals := []ssa.Value{e}
-			if ph, ok := e.(*ssa.Phi); ok {
-				vals = ph.Edges
-			}
-			for _, v := range vals {
-				d := pt.Affine(v).Sub(pt.Affine(fromPhi))
-				c.Check(d.String() == "p2" || d.String() == "0", "C18.c", "from-advances-by-chunk", "`from` advances by exactly the size of the chunk just emitted", s.prep, fromPhi, "new from "+pt.Of(v), nil)
+			if pf.Dominates(fromPhi.Block(), fromPhi.Block().Preds[i]) {
+				nextF = e
 			}
 		}
-		// request size: Amount store is phi(amount, per)
-		an.Instrs(s.prep, func(in ssa.Instruction) {
-			st, ok := in.(*ssa.Store)
-			if !ok {
-				return
-			}
-			if fa, ok := st.Addr.(*ssa.FieldAddr); ok && fieldName(fa) == "Amount" {
-				okSz := false
-				if ph, ok := st.Val.(*ssa.Phi); ok {
-					okSz = true
-					for i, e := range ph.Edges {
-						fs := pf.EdgeFacts(ph.Block().Preds[i], ph.Block())
-						switch pt.Of(e) {
-						case pt.Of(amountPhi):
-							okSz = okSz && fs.Has(an.LT(pt.Of(amountPhi), "p2"))
-						case "p2":
-							okSz = okSz && fs.Has(an.GE(pt.Of(amountPhi), "p2"))
-						default:
-							okSz = false
-						}
-					}
+		if c.Check(amtStore != nil && nextA != nil && nextF != nil, "C18.c", "split-step", "each iteration stores the request size and carries new values of `from` and `amount` back", s.prep, nil, "", nil) {
+			S := amtStore.Val
+			// the merge block, if the three values are merged by an if/else
+			var merge *ssa.BasicBlock
+			for _, v := range []ssa.Value{S, nextA, nextF} {
+				if ph, ok := v.(*ssa.Phi); ok && ph.Block() != hdr {
+					merge = ph.Block()
 				}
-				c.Check(okSz, "C18.c", "chunk-size", "a chunk asks for min(remaining amount, per-peer size) headers", s.prep, st, "Amount = "+pt.Of(st.Val), nil)
 			}
-		})
+			type tup struct {
+				s, a, f ssa.Value
+				fs      an.FactSet
+				name    string
+			}
+			var tups []tup
+			pick := func(v ssa.Value, i int) ssa.Value {
+				if ph, ok := v.(*ssa.Phi); ok && merge != nil && ph.Block() == merge {
+					return ph.Edges[i]
+				}
+				return v
+			}
+			if merge != nil {
+				for i, pred := range merge.Preds {
+					tups = append(tups, tup{pick(S, i), pick(nextA, i), pick(nextF, i), pf.EdgeFacts(pred, merge), "branch " + itoa(i)})
+				}
+			} else {
+				tups = append(tups, tup{S, nextA, nextF, pf.AtInstr(amtStore), "single path"})
+			}
+			A, F := pt.Affine(amountPhi), pt.Affine(fromPhi)
+			per := an.Var("p2", true)
+			for _, tp := range tups {
+				fs := append(append(an.FactSet{}, tp.fs...), an.NE(pt.Of(amountPhi), "0"))
+				if perOK {
+					fs = append(fs, an.NE("p2", "0"))
+				}
+				sa := pt.Affine(tp.s)
+				okSz := pf.ProveGEFacts(fs, sa, an.Const(1), 0) && pf.ProveGEFacts(fs, A, sa, 0) && pf.ProveGEFacts(fs, per, sa, 0)
+				c.Check(okSz, "C18.c", "chunk-size", "a chunk asks for at least one and at most min(remaining amount, per-peer size) headers", s.prep, amtStore, tp.name+": Amount = "+an.Stable(pt.Of(tp.s)), fs)
+				dA := A.Sub(pt.Affine(tp.a)).Sub(sa)
+				c.Check(dA.String() == "0", "C18.c", "amount-decreases", "the remaining amount decreases by exactly the size of the chunk just emitted (hence strictly: the chunk is ≥ 1)", s.prep, amountPhi, tp.name+": new amount "+an.Stable(pt.Of(tp.a)), fs)
+				dF := pt.Affine(tp.f).Sub(F).Sub(sa)
+				last := pt.Affine(tp.a).String() == "0"
+				c.Check(dF.String() == "0" || last, "C18.c", "from-advances-by-chunk", "`from` advances by exactly the size of the chunk just emitted (it may stay when nothing remains)", s.prep, fromPhi, tp.name+": new from "+an.Stable(pt.Of(tp.f)), fs)
+			}
+			c.Min("C18.c", "ways through one splitting step", len(tups), 1)
+		}
 	}
 
 	// --- C18.d peer return and queue pairing
